@@ -1,6 +1,7 @@
 package repsim
 
 import (
+	"regexp"
 	"bufio"
 	"fmt"
 	"os"
@@ -137,12 +138,11 @@ func isGitBugRef(ref string) bool {
 	if strings.HasPrefix(ref, "refs/bugs/") || strings.HasPrefix(ref, "refs/identities/") {
 		return true
 	}
-	if strings.HasPrefix(ref, "refs/remotes/") {
-		p := strings.Split(ref, "/")
-		return len(p) >= 5 && (p[3] == "bugs" || p[3] == "identities")
-	}
-	return false
+	return trackingRefRe.MatchString(ref)
 }
+
+// a mirror of an entity under a remote's name, which may itself hold slashes ("team/hub0")
+var trackingRefRe = regexp.MustCompile(`^refs/remotes/.+/(bugs|identities)/[0-9a-f]{64}$`)
 
 func (x *run) hostSnapshot(rs *repState) *hostSnap {
 	d := rs.r.Dir
